@@ -43,7 +43,23 @@ def delivery_checks(case, obs, out, strict_positions=True):
     for a in c.arrivals:
         if a.api == "sync" and a.delivered and a.reply and a.reply.get("error") == 0 and a.t_end is not None:
             sync_ok.setdefault(a.client_id, []).append(a)
+    # a member that left the group on its own (idle longer than max_poll_interval_ms, unsubscribe) knows that its
+    # assignment is gone: nothing may be delivered from it once the LeaveGroup reply is in, until a new assignment
+    leaves = {}
+    for a in c.arrivals:
+        if a.api == "leave" and a.delivered and a.t_end is not None:
+            leaves.setdefault(a.client_id, []).append(a.t_end)
     tl = member_timelines(obs)
+    for tag, evs in tl.items():
+        ab = [e["t"] for e in evs if e["kind"] == "assigned_begin"]
+        for e in evs:
+            if e["kind"] != "deliver":
+                continue
+            prior = [t for t in leaves.get(tag, []) if t + 0.001 < e["t"]]
+            if prior and not any(prior[-1] < t <= e["t"] for t in ab):
+                out.fail("revoked_silent", "record_after_leaving_group", {"member": tag, "tp": e["tp"], "offset": e["offset"],
+                                                                          "left_at": prior[-1], "delivered_at": e["t"]})
+                break
     info = {}
     for tag, evs in tl.items():
         owned = None              # None = before the first assignment
@@ -205,6 +221,21 @@ def evaluate(case, obs):
                 if re_ is not None and ab2["seq"] < re_["seq"]:
                     out.fail("barrier", "assigned_before_all_revoked", {"generation": gno, "revoking": tag, "assigned": tag2,
                                                                         "revoked_end_seq": re_["seq"], "assigned_begin_seq": ab2["seq"]})
+    # ---- a member stays alive while its revoke callback runs: with nothing disturbing the coordinator, a callback
+    #      longer than the session timeout must be covered by heartbeats, else the member is expired and the next
+    #      generation is assigned while it is still revoking
+    if not case.get("faults") and not case.get("kills") and not any(e.get("ev") == "move_group_coord" for e in case.get("env", [])):
+        sess = case["cfg"]["session_timeout_ms"] / 1000.0
+        for tag, evs in tl.items():
+            begins = [e for e in evs if e["kind"] == "revoked_begin" and e["tps"]]
+            for rb in begins:
+                re_ = next((e for e in evs if e["kind"] == "revoked_end" and e["seq"] > rb["seq"]), None)
+                if re_ is None or re_["t"] - rb["t"] < sess:
+                    continue
+                hb = [a for a in c.arrivals if a.client_id == tag and a.api == "heartbeat" and rb["t"] <= a.t_written <= re_["t"]]
+                if not hb:
+                    out.fail("barrier", "no_heartbeat_during_revoke_callback", {"member": tag, "from": rb["t"], "to": re_["t"],
+                                                                                "session_timeout": sess})
     # ---- revoked_silent / no_stale_data
     delivery_checks(case, obs, out)
     c06.group_checks(case, obs, out)
